@@ -4,6 +4,7 @@
    hence the same power flow problem. *)
 From Coq Require Import ZArith QArith List Bool String.
 From PPV Require Import Base.QN C23.Model C23.Proofs.
+From PPV Require Base.C07Graph C07.Model C07.UnionFind C23.Repl C23.ReplProofs C23.Fuse C23.FuseProofs.
 Import ListNotations.
 Open Scope Q_scope.
 
@@ -46,3 +47,115 @@ Theorem C23_merge_parallel_line_equiv : forall l,
   c_km (merge_parallel l) * par (merge_parallel l) == c_km l * par l /\ g_km (merge_parallel l) * par (merge_parallel l) == g_km l * par l.
 Proof. exact merge_parallel_preserves. Qed.
 Print Assumptions C23_merge_parallel_line_equiv.
+
+(* ====================================================================== ward / xward / ext_grid replacements (C23/Repl.v)
+   bus_row lk bk n r = the columns PD, QD, GS and the q-sum behind BS of ppc bus row r as _calc_pq_elements_and_add_on_ppc and
+   _calc_shunts_and_add_on_ppc fill them from the load / shunt / ward / xward tables of n (lk = bus lookup, bk = BASE_KV per
+   row); =r= is == on the four columns; pu_eq compares Sbus = -(PD + jQD)/sn_mva and Ysh = (GS + jBS)/sn_mva.
+   base_ok lk bk n b: BASE_KV of the ppc row of bus b is the vn_kv of b (fused buses have one rated voltage) and not 0. *)
+Module Repl.
+Import C23.Repl C23.ReplProofs.
+Open Scope Q_scope.
+
+(* replace_ward_by_internal_elements: for EVERY net, selection of distinct ward indices, lookup and ppc row: the load(ps, qs) and
+   shunt(pz, qz, vn_kv of the bus, step 1) created per ward put exactly the ward's P, Q and shunt admittance on the row *)
+Theorem C23_ward_replacement_bus_rows : forall lk bk n sel m r,
+  replace_wards n sel = Ok m -> NoDup sel -> NoDup (map w_id (wards n)) ->
+  (forall w, In w (wards n) -> base_ok lk bk n (w_bus w)) ->
+  bus_row lk bk m r =r= bus_row lk bk n r /\ pu_eq (sn m) (bus_row lk bk m r) (sn n) (bus_row lk bk n r).
+Proof. exact replace_wards_bus_rows. Qed.
+Print Assumptions C23_ward_replacement_bus_rows.
+Example C23_ward_replacement_nonvacuous : exists m,
+  replace_wards w_rnet [4%nat] = Ok m /\ NoDup [4%nat] /\ NoDup (map w_id (wards w_rnet)) /\
+  (forall w, In w (wards w_rnet) -> base_ok (fun x => x) (fun _ => 20) w_rnet (w_bus w)) /\
+  ~ pd (bus_row (fun x => x) (fun _ => 20) w_rnet 3) == 0 /\ List.length (loads m) = 2%nat /\ List.length (wards m) = 1%nat.
+Proof. exact replace_wards_nonvacuous. Qed.
+Print Assumptions C23_ward_replacement_nonvacuous.
+
+(* replace_xward_by_internal_elements (the loop creates bus, load, shunt, gen, impedance per xward): rows of every ppc bus *)
+Theorem C23_xward_replacement_bus_rows : forall lk bk n sel m r,
+  replace_xwards n sel = Ok m -> NoDup sel -> NoDup (map x_id (xwards n)) ->
+  (forall x, In x (xwards n) -> base_ok lk bk n (x_bus x) /\ vn_of n (x_bus x) <> None) ->
+  (forall l, In l (loads n) -> vn_of n (l_bus l) <> None) -> (forall s, In s (shunts n) -> vn_of n (s_bus s) <> None) ->
+  (forall w, In w (wards n) -> vn_of n (w_bus w) <> None) ->
+  bus_row lk bk m r =r= bus_row lk bk n r /\ pu_eq (sn m) (bus_row lk bk m r) (sn n) (bus_row lk bk n r).
+Proof. exact replace_xwards_bus_rows. Qed.
+Print Assumptions C23_xward_replacement_bus_rows.
+Example C23_xward_replacement_nonvacuous : exists m,
+  replace_xwards w_rnet [2%nat] = Ok m /\ NoDup [2%nat] /\ NoDup (map x_id (xwards w_rnet)) /\
+  (forall x, In x (xwards w_rnet) -> base_ok (fun x => x) (fun _ => 20) w_rnet (x_bus x) /\ vn_of w_rnet (x_bus x) <> None) /\
+  List.length (buses m) = 3%nat /\ List.length (imps m) = 1%nat /\ xwards m = [].
+Proof. exact replace_xwards_nonvacuous. Qed.
+Print Assumptions C23_xward_replacement_nonvacuous.
+(* the voltage source behind r + jx: the ppc branch of the created impedance (C02.Model.impedance_branch, per unit on its own
+   sn_mva = net.sn_mva) and the PV set point of the created gen equal the xward's internal branch (C02.Model.xward_branch,
+   r_ohm / (BASE_KV^2 / sn_mva)) and set point (VG = vm_pu, PG = 0) — for every xward, rated voltage and net.sn_mva *)
+Theorem C23_xward_voltage_source_equiv : forall snet basekv vn nb x,
+  basekv == vn -> ~ vn == 0 -> ~ snet == 0 ->
+  vsrc_eq (vsrc_of_internal snet (xward_imped false snet vn x) (xward_gen nb x)) (vsrc_of_xward snet basekv true x).
+Proof. exact xward_vsrc. Qed.
+Print Assumptions C23_xward_voltage_source_equiv.
+(* the rule before "fix: replace_xward_by_internal_elements converts the xward impedance to per unit with net.sn_mva" *)
+Theorem C23_xward_voltage_source_old_partial : forall snet basekv vn nb x,
+  snet == 1 -> basekv == vn -> ~ vn == 0 ->
+  vsrc_eq (vsrc_of_internal snet (xward_imped true snet vn x) (xward_gen nb x)) (vsrc_of_xward snet basekv true x).
+Proof. exact xward_vsrc_old_partial. Qed.
+Print Assumptions C23_xward_voltage_source_old_partial.
+Theorem C23_xward_voltage_source_old_refuted : exists snet vn nb x, ~ vn == 0 /\ ~ snet == 0 /\
+  ~ z_r (vsrc_of_internal snet (xward_imped true snet vn x) (xward_gen nb x)) == z_r (vsrc_of_xward snet vn true x).
+Proof. exact xward_vsrc_old_refuted. Qed.
+Print Assumptions C23_xward_voltage_source_old_refuted.
+
+(* replace_ext_grid_by_gen(slack=True): what the element writes into the ppc row of its bus (reference flag, VM, VA).
+   Full statement (all ext_grids) is false: a gen has no angle set point; it holds under G23e (va_degree = 0 or
+   calculate_voltage_angles = False); reference flag and VM survive always; slack=False (the default) loses the reference *)
+Theorem C23_ext_grid_by_gen_partial : forall cva bis p e, G23e cva e = true ->
+  vref_eq (vref_of_gen bis (egrid_gen true p e)) (vref_of_egrid cva bis e).
+Proof. exact egrid_vref_partial. Qed.
+Print Assumptions C23_ext_grid_by_gen_partial.
+Theorem C23_ext_grid_by_gen_refuted : exists cva bis p e, ~ vref_eq (vref_of_gen bis (egrid_gen true p e)) (vref_of_egrid cva bis e).
+Proof. exact egrid_vref_refuted. Qed.
+Print Assumptions C23_ext_grid_by_gen_refuted.
+Theorem C23_ext_grid_by_gen_vm_and_reference : forall cva bis p e,
+  match vref_of_gen bis (egrid_gen true p e), vref_of_egrid cva bis e with
+  | Some u, Some v => is_ref u = is_ref v /\ vm_set u == vm_set v
+  | None, None => True | _, _ => False end.
+Proof. exact egrid_vm_ref. Qed.
+Print Assumptions C23_ext_grid_by_gen_vm_and_reference.
+Theorem C23_ext_grid_by_gen_noslack_refuted : exists cva bis p e, G23e cva e = true /\
+  ~ vref_eq (vref_of_gen bis (egrid_gen false p e)) (vref_of_egrid cva bis e).
+Proof. exact egrid_noslack_refuted. Qed.
+Print Assumptions C23_ext_grid_by_gen_noslack_refuted.
+End Repl.
+
+(* ====================================================================== fuse_buses (C23/Fuse.v on C07.Model.net)
+   rep n = the bus -> root bus lookup of the power flow build (C07.Model, proved in C07/UnionFind.v to be the partition by
+   fusing switches); sb b1 b2s = the rerouting b2 -> b1.  If every fused bus already shares the ppc row of b1, the partition of
+   the buses into ppc rows is the same before and after fuse_buses — in particular for b2 behind a closed bus-bus switch
+   without impedance (G23f); across an open switch it is not. *)
+Module Fuse.
+Import Base.C07Graph C07.Model C07.UnionFind C23.Fuse C23.FuseProofs.
+Theorem C23_fuse_buses_partition : forall n b1 b2s,
+  (forall x, in_b2 b1 b2s x = true -> rep n x = rep n b1) ->
+  forall a b, rep (fuse_buses n b1 b2s) (sb b1 b2s a) = rep (fuse_buses n b1 b2s) (sb b1 b2s b) <-> rep n a = rep n b.
+Proof. exact fuse_partition_rep. Qed.
+Print Assumptions C23_fuse_buses_partition.
+Theorem C23_fuse_closed_switch_partition : forall n b1 b2, G23f n b1 b2 = true ->
+  forall a b, rep (fuse_buses n b1 [b2]) (sb b1 [b2] a) = rep (fuse_buses n b1 [b2]) (sb b1 [b2] b) <-> rep n a = rep n b.
+Proof. exact fuse_closed_switch_partition. Qed.
+Print Assumptions C23_fuse_closed_switch_partition.
+Theorem C23_fuse_surviving_buses_partition : forall n b1 b2s,
+  (forall x, in_b2 b1 b2s x = true -> rep n x = rep n b1) ->
+  forall a b, in_b2 b1 b2s a = false -> in_b2 b1 b2s b = false ->
+  (rep (fuse_buses n b1 b2s) a = rep (fuse_buses n b1 b2s) b <-> rep n a = rep n b).
+Proof. exact fuse_partition_surviving_rep. Qed.
+Print Assumptions C23_fuse_surviving_buses_partition.
+Theorem C23_fuse_open_switch_refuted : exists n b1 b2 a b,
+  ~ (rep (fuse_buses n b1 [b2]) (sb b1 [b2] a) = rep (fuse_buses n b1 [b2]) (sb b1 [b2] b) <-> rep n a = rep n b).
+Proof. exact fuse_open_switch_refuted. Qed.
+Print Assumptions C23_fuse_open_switch_refuted.
+Example C23_fuse_closed_switch_nonvacuous :
+  G23f w_net_closed 1 2 = true /\ rep w_net_closed 1 = rep w_net_closed 2 /\ rep w_net_closed 0 <> rep w_net_closed 1.
+Proof. exact fuse_nonvacuous. Qed.
+Print Assumptions C23_fuse_closed_switch_nonvacuous.
+End Fuse.
